@@ -171,6 +171,62 @@ pub struct IterReport {
     pub strings_len: Option<usize>,
 }
 
+/// What the iterator handed to `Extend` / `FromIterator` yields, and when (FORMAT.md, `EX` / `FI`)
+#[derive(Clone, Copy, Debug, PartialEq, Eq)]
+pub enum Shape {
+    /// `String`s that all exist before the call
+    Vec,
+    /// `String`s built when pulled; the callee drops each one before the next is built
+    Lazy,
+    /// like `Lazy`, `Box<str>` items
+    Boxed,
+    /// `&str` borrowed from the live list
+    Refs,
+}
+
+impl Shape {
+    /// The optional last token of `EX` / `FI`
+    pub fn from_tok(tok: Option<&&str>) -> Option<Self> {
+        Some(match tok {
+            None | Some(&"vec") => Shape::Vec,
+            Some(&"lazy") => Shape::Lazy,
+            Some(&"boxed") => Shape::Boxed,
+            Some(&"refs") => Shape::Refs,
+            _ => return None,
+        })
+    }
+}
+
+/// Any iterator, reporting a chosen size_hint
+struct HintIter<I> {
+    items: I,
+    hint: (usize, Option<usize>),
+}
+
+impl<I: Iterator> Iterator for HintIter<I> {
+    type Item = I::Item;
+    fn next(&mut self) -> Option<I::Item> {
+        self.items.next()
+    }
+    fn size_hint(&self) -> (usize, Option<usize>) {
+        self.hint
+    }
+}
+
+/// `$consume(iterator)` with the iterator of the given shape over `$list: Vec<String>`, wrapped in the size hint
+macro_rules! with_shaped_iter {
+    ($list:expr, $hint:expr, $shape:expr, $consume:expr) => {{
+        let list: Vec<String> = $list;
+        let hint = $hint;
+        match $shape {
+            Shape::Vec => ($consume)(HintIter { items: list.into_iter(), hint }),
+            Shape::Lazy => ($consume)(HintIter { items: list.iter().map(|s| s.to_string()), hint }),
+            Shape::Boxed => ($consume)(HintIter { items: list.iter().map(|s| s.to_string().into_boxed_str()), hint }),
+            Shape::Refs => ($consume)(HintIter { items: list.iter().map(|s| s.as_str()), hint }),
+        }
+    }};
+}
+
 // ------------------------------------------------------------------------------------------
 // the four containers behind one interface (inherent methods + what only some of them have)
 // ------------------------------------------------------------------------------------------
@@ -415,7 +471,7 @@ pub trait IntC<K: KeyT>: ReadC<K> + Interner<K> + IntoReader<K, Reader = ReaderT
     fn i_set_limit(&mut self, limit: usize);
     fn i_current(&self) -> usize;
     fn i_max(&self) -> usize;
-    fn i_extend(&mut self, items: Vec<String>, hint: (usize, Option<usize>));
+    fn i_extend(&mut self, items: Vec<String>, hint: (usize, Option<usize>), shape: Shape);
     fn i_into_reader(self) -> ReaderT<K>;
 }
 
@@ -447,9 +503,9 @@ impl<K: KeyT> IntC<K> for RodeoT<K> {
     fn i_max(&self) -> usize {
         self.max_memory_usage()
     }
-    fn i_extend(&mut self, items: Vec<String>, hint: (usize, Option<usize>)) {
-        // the iterator reports the size hint the case asks for (exact by default)
-        Extend::extend(self, HintIter { items: items.into_iter(), hint });
+    fn i_extend(&mut self, items: Vec<String>, hint: (usize, Option<usize>), shape: Shape) {
+        // the iterator reports the size hint the case asks for (exact by default) and yields items of the asked shape
+        with_shaped_iter!(items, hint, shape, |it| Extend::extend(self, it));
     }
     fn i_into_reader(self) -> ReaderT<K> {
         self.into_reader()
@@ -484,9 +540,9 @@ impl<K: KeyT> IntC<K> for ThreadedT<K> {
     fn i_max(&self) -> usize {
         self.max_memory_usage()
     }
-    fn i_extend(&mut self, items: Vec<String>, hint: (usize, Option<usize>)) {
-        // the iterator reports the size hint the case asks for (exact by default)
-        Extend::extend(self, HintIter { items: items.into_iter(), hint });
+    fn i_extend(&mut self, items: Vec<String>, hint: (usize, Option<usize>), shape: Shape) {
+        // the iterator reports the size hint the case asks for (exact by default) and yields items of the asked shape
+        with_shaped_iter!(items, hint, shape, |it| Extend::extend(self, it));
     }
     fn i_into_reader(self) -> ReaderT<K> {
         self.into_reader()
@@ -863,6 +919,11 @@ pub enum Ev {
     Eq { i: usize, j: usize, eq: Option<bool>, ne: Option<bool>, rev: Option<Option<bool>> },
     FromIter { new: Option<usize>, list: Vec<String> },
     Extend { slot: usize, list: Vec<String>, ok: bool },
+    /// DEI: `res` = Some(true) accepted, Some(false) refused, None panicked; `before` = the slot right before the
+    /// call; `reference` = what `DE <kind> <doc>` creates from the same document (None: it refuses or panics)
+    DeInPlace { slot: usize, kind: Kind, doc: DocIn, res: Option<bool>, before: SnapR, reference: Option<Snap> },
+    /// PEQ that hung: both slots were leaked
+    Leaked { slots: Vec<usize> },
 }
 
 pub struct World<K: KeyT> {
@@ -873,25 +934,9 @@ pub struct World<K: KeyT> {
     pub keycap: u64,
 }
 
-/// FromIterator input with a chosen size_hint
-struct HintIter {
-    items: std::vec::IntoIter<String>,
-    hint: (usize, Option<usize>),
-}
-
-impl Iterator for HintIter {
-    type Item = String;
-    fn next(&mut self) -> Option<String> {
-        self.items.next()
-    }
-    fn size_hint(&self) -> (usize, Option<usize>) {
-        self.hint
-    }
-}
-
 const MUTATING: &[&str] = &[
     "NR", "NT", "I", "IS", "IA", "IP", "ISP", "CLR", "LIM", "CL", "CF", "DROP", "RD", "RS", "DE",
-    "FI", "EX",
+    "FI", "EX", "DEI",
 ];
 
 fn err_name(kind: LassoErrorKind) -> &'static str {
@@ -1449,6 +1494,91 @@ impl<K: KeyT> World<K> {
                 }
             }
 
+            // DEI <slot> <kind> <doc>: serde's deserialize_in_place on the object in the slot
+            "DEI" => {
+                let slot = match self.slot_of(toks.get(1)) {
+                    Some(i) => i,
+                    None => return x(),
+                };
+                let kind = match toks.get(2) {
+                    Some(&"rodeo") => Kind::Rodeo,
+                    Some(&"threaded") => Kind::Threaded,
+                    Some(&"reader") => Kind::Reader,
+                    Some(&"resolver") => Kind::Resolver,
+                    _ => return x(),
+                };
+                let doc = match toks.get(3).and_then(|t| parse_doc(t)) {
+                    Some(d) => d,
+                    None => return x(),
+                };
+                if self.slots[slot].obj.kind() != Some(kind) {
+                    return x();
+                }
+                let json = doc_to_json(&doc);
+                let before = self.slots[slot].obj.snap();
+                fn in_place<'a, T: serde::Deserialize<'a>>(json: &'a str, place: &mut T) -> Option<bool> {
+                    guard(|| {
+                        let mut de = serde_json::Deserializer::from_str(json);
+                        serde::Deserialize::deserialize_in_place(&mut de, place).is_ok()
+                    })
+                }
+                fn reference<K: KeyT, C: Cont<K> + DeserializeOwned>(json: &str) -> Option<Snap> {
+                    guard(|| serde_json::from_str::<C>(json).ok().map(|o| snap_of::<K, C>(&o))).flatten()
+                }
+                let (res, reference) = match &mut self.slots[slot].obj {
+                    Obj::Rodeo(b) => (in_place(&json, &mut **b), reference::<K, RodeoT<K>>(&json)),
+                    Obj::Threaded(b) => (in_place(&json, &mut **b), reference::<K, ThreadedT<K>>(&json)),
+                    Obj::Reader(b) => (in_place(&json, &mut **b), reference::<K, ReaderT<K>>(&json)),
+                    Obj::Resolver(b) => (in_place(&json, &mut **b), reference::<K, ResolverT<K>>(&json)),
+                    Obj::Dead => return x(),
+                };
+                if res == Some(true) && kind == Kind::Threaded {
+                    // like `DE threaded`: the arena layout follows the HashMap's iteration order
+                    self.slots[slot].unordered = true;
+                }
+                let out = match res {
+                    Some(true) => "U",
+                    Some(false) => "DE:err",
+                    None => "P",
+                };
+                (out.to_string(), Ev::DeInPlace { slot, kind, doc, res, before, reference })
+            }
+
+            // PEQ <i> <j>: the comparison evaluated concurrently in both directions (and i == i on a third thread)
+            "PEQ" => {
+                let parse = |t: Option<&&str>| t.and_then(|t| t.parse::<usize>().ok());
+                let (i, j) = match (parse(toks.get(1)), parse(toks.get(2))) {
+                    (Some(i), Some(j)) if i < self.slots.len() && j < self.slots.len() => (i, j),
+                    _ => return x(),
+                };
+                if !eq_impl_exists(&self.slots[i].obj, &self.slots[j].obj) {
+                    return x();
+                }
+                let a = self.take(i);
+                let b = if i == j { Obj::Dead } else { self.take(j) };
+                match peq_run(a, b, i == j) {
+                    Ok((a, b, verdict)) => {
+                        self.slots[i].obj = a;
+                        if i != j {
+                            self.slots[j].obj = b;
+                        }
+                        match verdict {
+                            Some((eq, ne, rev)) => {
+                                let out = match eq {
+                                    Some(true) => "T",
+                                    Some(false) => "F",
+                                    None => "P",
+                                };
+                                (out.to_string(), Ev::Eq { i, j, eq, ne, rev })
+                            }
+                            None => ("PEQ:differ".to_string(), Ev::Read { slots: vec![i, j] }),
+                        }
+                    }
+                    // the objects were leaked (stuck threads still refer to them): both slots stay dead
+                    Err(()) => ("PEQ:hang".to_string(), Ev::Leaked { slots: vec![i, j] }),
+                }
+            }
+
             "EQ" => {
                 let parse = |t: Option<&&str>| t.and_then(|t| t.parse::<usize>().ok());
                 let (i, j) = match (parse(toks.get(1)), parse(toks.get(2))) {
@@ -1621,14 +1751,19 @@ impl<K: KeyT> World<K> {
                     Some(&"high") => (2 * n + 7, Some(2 * n + 7)),
                     _ => return x(),
                 };
-                let iter = HintIter {
-                    items: list.clone().into_iter(),
-                    hint,
+                let shape = match Shape::from_tok(toks.get(4)) {
+                    Some(s) => s,
+                    None => return x(),
                 };
+                let items = list.clone();
                 let obj = if threaded {
-                    guard(move || Obj::Threaded(Box::new(iter.collect::<ThreadedT<K>>())))
+                    guard(move || {
+                        Obj::Threaded(Box::new(with_shaped_iter!(items, hint, shape, |it| Iterator::collect::<ThreadedT<K>>(it))))
+                    })
                 } else {
-                    guard(move || Obj::Rodeo(Box::new(iter.collect::<RodeoT<K>>())))
+                    guard(move || {
+                        Obj::Rodeo(Box::new(with_shaped_iter!(items, hint, shape, |it| Iterator::collect::<RodeoT<K>>(it))))
+                    })
                 };
                 match obj {
                     Some(obj) => {
@@ -1660,9 +1795,13 @@ impl<K: KeyT> World<K> {
                     Some(&"high") => (2 * n + 7, Some(2 * n + 7)),
                     _ => return x(),
                 };
+                let shape = match Shape::from_tok(toks.get(4)) {
+                    Some(s) => s,
+                    None => return x(),
+                };
                 let ok = match &mut self.slots[slot].obj {
-                    Obj::Rodeo(b) => guard(move || b.i_extend(items, hint)),
-                    Obj::Threaded(b) => guard(move || b.i_extend(items, hint)),
+                    Obj::Rodeo(b) => guard(move || b.i_extend(items, hint, shape)),
+                    Obj::Threaded(b) => guard(move || b.i_extend(items, hint, shape)),
                     _ => unreachable!(),
                 }
                 .is_some();
@@ -1694,6 +1833,100 @@ impl<K: KeyT> World<K> {
             out.push('\n');
         }
     }
+}
+
+/// Whether the crate has `==` for this pairing of kinds (the 13 impls `eq_objs` dispatches to)
+fn eq_impl_exists<K: KeyT>(a: &Obj<K>, b: &Obj<K>) -> bool {
+    matches!(
+        (a, b),
+        (Obj::Rodeo(_), Obj::Rodeo(_) | Obj::Reader(_) | Obj::Resolver(_))
+            | (Obj::Threaded(_), Obj::Threaded(_) | Obj::Rodeo(_) | Obj::Reader(_) | Obj::Resolver(_))
+            | (Obj::Reader(_), Obj::Reader(_) | Obj::Resolver(_) | Obj::Rodeo(_))
+            | (Obj::Resolver(_), Obj::Resolver(_) | Obj::Reader(_) | Obj::Rodeo(_))
+    )
+}
+
+/// How often each direction is evaluated by `PEQ`, and how long the main thread waits for the three threads
+const PEQ_ROUNDS: usize = 200;
+const PEQ_WAIT: std::time::Duration = std::time::Duration::from_secs(10);
+
+/// `(eq, ne, rev)` as in `Ev::Eq` when all evaluations agreed, `None` when they did not
+type PeqVerdict = Option<(Option<bool>, Option<bool>, Option<Option<bool>>)>;
+
+/// `PEQ`: three threads evaluate `a == b`, `b == a` (where the crate has that impl) and `a == a`, `PEQ_ROUNDS` times each,
+/// released together.  `Ok`: all finished in time, the objects come back.  `Err`: they did not; the objects stay
+/// where the stuck threads can still refer to them (leaked for good), the threads are abandoned.
+fn peq_run<K: KeyT>(a: Obj<K>, b: Obj<K>, same: bool) -> Result<(Obj<K>, Obj<K>, PeqVerdict), ()> {
+    use std::sync::{mpsc, Arc, Barrier};
+    // shared by address: a scoped borrow could not be abandoned after a timeout
+    let pair: *mut (Obj<K>, Obj<K>) = Box::into_raw(Box::new((a, b)));
+    let addr = pair as usize;
+    let (tx, rx) = mpsc::channel::<(usize, Vec<(Option<bool>, Option<bool>)>)>();
+    let gate = Arc::new(Barrier::new(3));
+    let cap = crate::dyn_cap();
+    let mut handles = Vec::with_capacity(3);
+    for role in 0..3usize {
+        let (tx, gate) = (tx.clone(), gate.clone());
+        let body = move || {
+            crate::set_dyn_cap(cap);
+            // Safety: the pair is freed only after this thread has sent its answer (or never)
+            let pair: &(Obj<K>, Obj<K>) = unsafe { &*(addr as *const (Obj<K>, Obj<K>)) };
+            let second = if same { &pair.0 } else { &pair.1 };
+            let (l, r) = match role {
+                0 => (&pair.0, second),
+                1 => (second, &pair.0),
+                _ => (&pair.0, &pair.0),
+            };
+            let mut seen = Vec::with_capacity(PEQ_ROUNDS);
+            gate.wait();
+            for _ in 0..PEQ_ROUNDS {
+                match eq_objs(l, r) {
+                    Some(answer) => seen.push(answer),
+                    None => break, // no impl in this direction
+                }
+            }
+            let _ = tx.send((role, seen));
+        };
+        if let Ok(handle) = std::thread::Builder::new().name(format!("peq{role}")).spawn(body) {
+            handles.push(handle);
+        }
+    }
+    drop(tx);
+    if handles.len() < 3 {
+        // the gate can never open: treat like a hang (nothing may be freed while a thread waits at the gate)
+        return Err(());
+    }
+    let deadline = std::time::Instant::now() + PEQ_WAIT;
+    let mut answers: Vec<Vec<(Option<bool>, Option<bool>)>> = vec![Vec::new(); 3];
+    for _ in 0..3 {
+        let left = deadline.saturating_duration_since(std::time::Instant::now());
+        // (a blocking receive creates the thread's mpsc context, which std keeps for the life of the thread: not the case's)
+        match talloc::untracked(|| rx.recv_timeout(left)) {
+            Ok((role, seen)) => answers[role] = seen,
+            Err(_) => return Err(()),
+        }
+    }
+    // the threads are about to exit: wait until they are gone, so that what `spawn` allocated for them is released
+    // before the case ends (the allocation monitor would count it as leaked by the case)
+    for handle in handles {
+        let _ = handle.join();
+    }
+    // Safety: all three threads have sent their answers, the last thing they do with the pair
+    let (a, b) = *unsafe { Box::from_raw(pair) };
+    let all_same = |v: &[(Option<bool>, Option<bool>)]| v.windows(2).all(|w| w[0] == w[1]);
+    let (fwd, rev, own) = (&answers[0], &answers[1], &answers[2]);
+    let agreed = !fwd.is_empty()
+        && all_same(fwd)
+        && all_same(rev)
+        && all_same(own)
+        && rev.first().map_or(true, |r| r.0 == fwd[0].0)
+        && own.first().map_or(true, |o| o.0 != Some(false));
+    let verdict = if agreed {
+        Some((fwd[0].0, fwd[0].1, rev.first().map(|r| r.0)))
+    } else {
+        None
+    };
+    Ok((a, b, verdict))
 }
 
 /// `==` and `!=` of two slots; `None` when the crate has no such impl (or a slot is dead);
@@ -1930,6 +2163,61 @@ fn run_ops<K: KeyT>(
     let _ = guard(move || drop(world));
 }
 
+/// The monitors of a `DEI` in a monitor-only case: the same as in a full case (C15 + the checks of the slot), on snapshots
+/// taken for the occasion
+fn light_dei<K: KeyT>(
+    world: &mut World<K>,
+    toks: &[&str],
+    ev: &Ev,
+    opno: usize,
+    dei_slots: &mut Vec<usize>,
+    dei_stale: &mut bool,
+    sink: &mut MonSink,
+) {
+    match ev {
+        Ev::DeInPlace { slot, .. } => {
+            let snaps = world.snap_all();
+            monitors::after_op(world, ev, &opno.to_string(), Some(&snaps), sink);
+            if !dei_slots.contains(slot) {
+                dei_slots.push(*slot);
+            }
+        }
+        _ => {
+            if !dei_slots.is_empty() && toks.first().map_or(false, |c| MUTATING.contains(c)) {
+                *dei_stale = true;
+            }
+        }
+    }
+}
+
+/// After a `DEI` on slot 0 of a monitor-only case: the linear shadow of the `I 0` ops restarts from the document
+/// (the slot's shadow as `check_dei` left it); a refused document changes nothing
+fn light_resync<K: KeyT>(
+    world: &World<K>,
+    res: Option<bool>,
+    by_str: &mut std::collections::HashMap<String, usize>,
+    by_key: &mut Vec<String>,
+    shadow_off: &mut bool,
+) {
+    match res {
+        Some(false) => {}
+        None => *shadow_off = true,
+        Some(true) => {
+            let pairs = world.slots[0].shadow.pairs();
+            by_str.clear();
+            by_key.clear();
+            for (pos, (k, s)) in pairs.iter().enumerate() {
+                let h = hex(s.as_bytes());
+                if *k != pos || by_str.insert(h.clone(), *k).is_some() {
+                    *shadow_off = true;
+                    return;
+                }
+                by_key.push(h);
+            }
+        }
+    }
+}
+
 /// Monitor-only cases (`MO-...`): only `I <slot> <hex>` ops are shadowed; checks C07 / C10 / C01 / C02 in linear time
 fn run_ops_light<K: KeyT>(world: &mut World<K>, ops: &[Vec<&str>], out: &mut String, sink: &mut MonSink) {
     use std::collections::HashMap;
@@ -1944,21 +2232,34 @@ fn run_ops_light<K: KeyT>(world: &mut World<K>, ops: &[Vec<&str>], out: &mut Str
         }
         reported += 1;
     };
+    // slots a `DEI` worked on, and whether a later mutating op may have changed them since
+    let mut dei_slots: Vec<usize> = Vec::new();
+    let mut dei_stale = false;
+    // the linear shadow of slot 0 no longer applies (a DEI left keys that are not 0..n, or panicked)
+    let mut shadow_off = false;
     for (opno, toks) in ops.iter().enumerate() {
         // `EXP <expected> <op ...>`: the generator states the answer itself (used where the model runner would be
         // too slow); any other answer is a finding
         if toks.first() == Some(&"EXP") && toks.len() >= 3 {
-            let (result, _ev) = world.exec(&toks[2..]);
+            let (result, ev) = world.exec(&toks[2..]);
             if result != toks[1] {
                 rep(sink, opno, "EXP", format!("`{}` answered {} where {} is the only right answer", toks[2..].join(" "), result, toks[1]));
             }
+            light_dei(world, &toks[2..], &ev, opno, &mut dei_slots, &mut dei_stale, sink);
+            if let Ev::DeInPlace { slot: 0, res, .. } = &ev {
+                light_resync(world, *res, &mut by_str, &mut by_key, &mut shadow_off);
+            }
             continue;
         }
-        let (result, _ev) = world.exec(toks);
+        let (result, ev) = world.exec(toks);
+        light_dei(world, toks, &ev, opno, &mut dei_slots, &mut dei_stale, sink);
+        if let Ev::DeInPlace { slot: 0, res, .. } = &ev {
+            light_resync(world, *res, &mut by_str, &mut by_key, &mut shadow_off);
+        }
         if opno < 4 || opno + 12 >= ops.len() {
             let _ = writeln!(out, "{} {} {}", world.id, opno, result);
         }
-        if toks.first() == Some(&"I") && toks.get(1) == Some(&"0") {
+        if !shadow_off && toks.first() == Some(&"I") && toks.get(1) == Some(&"0") {
             let s = toks.get(2).copied().unwrap_or("-").to_string();
             if let Some(k) = result.strip_prefix('K').and_then(|t| t.parse::<usize>().ok()) {
                 match by_str.get(&s) {
@@ -1989,8 +2290,12 @@ fn run_ops_light<K: KeyT>(world: &mut World<K>, ops: &[Vec<&str>], out: &mut Str
             }
         }
     }
+    // the slots a DEI touched: the end-of-case consistency of each (C01 / C02 / C04 / C10), whatever else the case checks
+    if !dei_slots.is_empty() {
+        monitors::at_end_slots(world, &dei_slots, dei_stale, sink);
+    }
     // cases that state their own expectations are checked by those alone
-    if ops.iter().any(|t| t.first() == Some(&"EXP")) {
+    if shadow_off || ops.iter().any(|t| t.first() == Some(&"EXP")) {
         return;
     }
     // the end: every shadowed pair still resolves, get agrees, len agrees
